@@ -506,4 +506,206 @@ Proof.
   destruct (s_coeffs s) as [|r C]; [reflexivity|]. cbn [map hd]. apply mk_length.
 Qed.
 
+
+(* ------------------------------------------------------------------ *)
+(* the block models are kernel blocks                                   *)
+(* ------------------------------------------------------------------ *)
+(* multipole moments / overlap: _moment_int.py *)
+Definition mm_kern (Cx Cy Cz : F) (km : nat) (sa sb : shell F) (o : comp) (alpha beta : F) (ca cb : comp) : F :=
+  prim3 K (table K (s_x sa) (s_x sb) Cx alpha beta (s_l sa) (s_l sb) km,
+           table K (s_y sa) (s_y sb) Cy alpha beta (s_l sa) (s_l sb) km,
+           table K (s_z sa) (s_z sb) Cz alpha beta (s_l sa) (s_l sb) km) o ca cb.
+
+Lemma mm_block_kernel Cx Cy Cz orders sa sb :
+  mm_block K Cx Cy Cz orders sa sb
+  = map (fun o => kblock (mm_kern Cx Cy Cz (omax orders) sa sb o) sa sb) orders.
+Proof.
+  unfold mm_block. cbv zeta. apply map_ext. intros o. unfold kblock. apply block_of_ext. intros ca cb.
+  unfold tabs, pf_of, mm_kern. rewrite map_map. apply map_ext. intros beta. now rewrite map_map.
+Qed.
+
+(* differential operators (kinetic energy, momentum): _diff_operator_int.py *)
+Definition do_kern (D : nat) (sa sb : shell F) (o : comp) (alpha beta : F) (ca cb : comp) : F :=
+  prim3 K (dtable K (s_x sa) (s_x sb) alpha beta (s_l sa) (s_l sb) D,
+           dtable K (s_y sa) (s_y sb) alpha beta (s_l sa) (s_l sb) D,
+           dtable K (s_z sa) (s_z sb) alpha beta (s_l sa) (s_l sb) D) o ca cb.
+
+Lemma diffop_block_kernel orders sa sb :
+  diffop_block K orders sa sb = map (fun o => kblock (do_kern (omax orders) sa sb o) sa sb) orders.
+Proof.
+  unfold diffop_block. cbv zeta. apply map_ext. intros o. unfold kblock. apply block_of_ext. intros ca cb.
+  unfold dtabs, pf_of, do_kern. rewrite map_map. apply map_ext. intros beta. now rewrite map_map.
+Qed.
+
+(* angular momentum: component c of angular_momentum.py's integrand *)
+Definition am_kern (c : nat) (sa sb : shell F) (alpha beta : F) (ca cb : comp) : F :=
+  nth c (angmom_prim K
+           (dtable K (s_x sa) (s_x sb) alpha beta (s_l sa) (s_l sb) 1,
+            dtable K (s_y sa) (s_y sb) alpha beta (s_l sa) (s_l sb) 1,
+            dtable K (s_z sa) (s_z sb) alpha beta (s_l sa) (s_l sb) 1)
+           (table K (s_x sa) (s_x sb) 0 alpha beta (s_l sa) (s_l sb) (omax [(1, 0, 0)%nat]),
+            table K (s_y sa) (s_y sb) 0 alpha beta (s_l sa) (s_l sb) (omax [(1, 0, 0)%nat]),
+            table K (s_z sa) (s_z sb) 0 alpha beta (s_l sa) (s_l sb) (omax [(1, 0, 0)%nat])) ca cb) 0.
+
+Lemma combine_map_same {A B C} (f : A -> B) (g : A -> C) (l : list A) :
+  combine (map f l) (map g l) = map (fun x => (f x, g x)) l.
+Proof. induction l as [|x l IH]; cbn; [reflexivity|]. now rewrite IH. Qed.
+
+Lemma angmom_block_kernel sa sb :
+  angmom_block_re K sa sb
+  = zip4 (fun xy z => xy ++ [z]) (zip4 (fun x y => [x; y]) (kblock (am_kern 0 sa sb) sa sb) (kblock (am_kern 1 sa sb) sa sb))
+         (kblock (am_kern 2 sa sb) sa sb).
+Proof.
+  unfold angmom_block_re. cbv zeta.
+  assert (E : forall c, block_of K sa sb (fun ca cb =>
+              map (fun '(drow, mrow) => map (fun '(d, m) => nth c (angmom_prim K d m ca cb) 0) (combine drow mrow))
+                  (combine (dtabs K 1 sa sb) (tabs K 0 0 0 [(1, 0, 0)%nat] sa sb)))
+            = kblock (am_kern c sa sb) sa sb).
+  { intros c. unfold kblock. apply block_of_ext. intros ca cb. unfold dtabs, tabs, pf_of, am_kern.
+    rewrite combine_map_same, map_map. apply map_ext. intros beta.
+    rewrite combine_map_same, map_map. reflexivity. }
+  now rewrite !E.
+Qed.
+
+(* frame lemmas: the kernels only read l and the centre of the shells *)
+Lemma mm_kern_frame Cx Cy Cz km sa sb psa psb o :
+  mm_kern Cx Cy Cz km (set_prims sa psa) (set_prims sb psb) o = mm_kern Cx Cy Cz km sa sb o.
+Proof. reflexivity. Qed.
+Lemma mm_kern_frame_c Cx Cy Cz km sa sb Ca Cb o :
+  mm_kern Cx Cy Cz km (set_coeffs sa Ca) (set_coeffs sb Cb) o = mm_kern Cx Cy Cz km sa sb o.
+Proof. reflexivity. Qed.
+
+(* ---- the laws for the multipole-moment block (all orders at once), hence overlap ---- *)
+Section MM.
+Variables (Cx Cy Cz : F) (orders : list comp).
+Notation MM := (mm_block K Cx Cy Cz orders).
+
+(* 1. for every order: entry (ma, ia, mb, ib) of the generalized block = entry (0, ia, 0, ib) of the
+      block of the single-column shells holding columns ma and mb *)
+Theorem mm_generalized_is_segmented sa sb ma mb : ma < nseg sa -> mb < nseg sb ->
+  MM (col_shell sa ma) (col_shell sb mb)
+  = map (fun blk => mk4 1 (ncomp sa) 1 (ncomp sb) (fun _ ia _ ib => nth4' ma ia mb ib blk)) (MM sa sb).
+Proof.
+  intros Hma Hmb. rewrite !mm_block_kernel, map_map. apply map_ext. intros o.
+  change (mm_kern Cx Cy Cz (omax orders) (col_shell sa ma) (col_shell sb mb) o)
+    with (mm_kern Cx Cy Cz (omax orders) sa sb o).
+  now apply kblock_segmented.
+Qed.
+
+Theorem mm_prim_perm_invariant sa sb psa psb :
+  Permutation (prims sa) psa -> Permutation (prims sb) psb ->
+  nseg (set_prims sa psa) = nseg sa -> nseg (set_prims sb psb) = nseg sb ->
+  MM (set_prims sa psa) (set_prims sb psb) = MM sa sb.
+Proof.
+  intros Ha Hb Na Nb. rewrite !mm_block_kernel. apply map_ext. intros o.
+  rewrite mm_kern_frame. now apply kblock_perm.
+Qed.
+
+Theorem mm_prim_split_a sa sb l1 l2 a r r1 r2 :
+  prims sa = l1 ++ (a, r) :: l2 -> r = map2 (fadd K) r1 r2 -> length r1 = length r2 ->
+  MM (set_prims sa (l1 ++ (a, r1) :: (a, r2) :: l2)) sb = MM sa sb.
+Proof.
+  intros Hp Hr Hl. rewrite !mm_block_kernel. apply map_ext. intros o.
+  change (mm_kern Cx Cy Cz (omax orders) (set_prims sa (l1 ++ (a, r1) :: (a, r2) :: l2)) sb o)
+    with (mm_kern Cx Cy Cz (omax orders) sa sb o).
+  now apply (kblock_split_a _ sa sb l1 l2 a r r1 r2).
+Qed.
+
+Theorem mm_prim_split_b sa sb l1 l2 a r r1 r2 :
+  prims sb = l1 ++ (a, r) :: l2 -> r = map2 (fadd K) r1 r2 -> length r1 = length r2 ->
+  MM sa (set_prims sb (l1 ++ (a, r1) :: (a, r2) :: l2)) = MM sa sb.
+Proof.
+  intros Hp Hr Hl. rewrite !mm_block_kernel. apply map_ext. intros o.
+  change (mm_kern Cx Cy Cz (omax orders) sa (set_prims sb (l1 ++ (a, r1) :: (a, r2) :: l2)) o)
+    with (mm_kern Cx Cy Cz (omax orders) sa sb o).
+  now apply (kblock_split_b _ sa sb l1 l2 a r r1 r2).
+Qed.
+
+(* entries of the block of order number d *)
+Definition mm_entry' (sa sb : shell F) (d ma ia mb ib : nat) : F := nth4' ma ia mb ib (nth d (MM sa sb) []).
+
+Lemma nth4_nil a b c d : nth4' a b c d [] = 0.
+Proof. unfold nth4'. now destruct a, b, c, d. Qed.
+
+Lemma mm_entry_kentry sa sb d ma ia mb ib :
+  d < length orders -> ma < nseg sa -> ia < ncomp sa -> mb < nseg sb -> ib < ncomp sb ->
+  mm_entry' sa sb d ma ia mb ib
+  = kentry (mm_kern Cx Cy Cz (omax orders) sa sb (nth d orders (0, 0, 0)%nat)) sa sb ma ia mb ib.
+Proof.
+  intros Hd Hma Hia Hmb Hib. unfold mm_entry'. rewrite mm_block_kernel.
+  rewrite (nth_indep _ [] (kblock (mm_kern Cx Cy Cz (omax orders) sa sb (0, 0, 0)%nat) sa sb))
+    by (now rewrite map_length).
+  rewrite (map_nth (fun o => kblock (mm_kern Cx Cy Cz (omax orders) sa sb o) sa sb)).
+  rewrite kblock_form. now apply nth4_mk4.
+Qed.
+
+Lemma nseg_rows_add (s : shell F) C1 C2 : same_shape C1 C2 ->
+  nseg (set_coeffs s (rows_add C1 C2)) = nseg (set_coeffs s C1) /\
+  nseg (set_coeffs s C2) = nseg (set_coeffs s C1).
+Proof.
+  intros H. unfold nseg, set_coeffs, rows_add. cbn [s_coeffs].
+  destruct H as [|r1 r2 C1 C2 Hr _]; [split; reflexivity|]. cbn [map2 hd]. split; [now apply map2_length|now symmetry].
+Qed.
+
+Lemma nseg_rows_scale (s : shell F) k C : nseg (set_coeffs s (rows_scale k C)) = nseg (set_coeffs s C).
+Proof. unfold nseg, set_coeffs, rows_scale. cbn [s_coeffs]. destruct C; [reflexivity|]. cbn [map hd]. apply map_length. Qed.
+
+(* 4. un-normalised linearity, every order d, every in-range entry *)
+Theorem mm_unnormalised_additive_a sa sb C1 C2 d ma ia mb ib : same_shape C1 C2 ->
+  d < length orders -> ma < nseg (set_coeffs sa C1) -> ia < ncomp sa -> mb < nseg sb -> ib < ncomp sb ->
+  mm_entry' (set_coeffs sa (rows_add C1 C2)) sb d ma ia mb ib
+  = mm_entry' (set_coeffs sa C1) sb d ma ia mb ib + mm_entry' (set_coeffs sa C2) sb d ma ia mb ib.
+Proof.
+  intros HS Hd Hma Hia Hmb Hib. destruct (nseg_rows_add sa C1 C2 HS) as [N1 N2].
+  rewrite !mm_entry_kentry by (assumption || (rewrite ?N1, ?N2; assumption)).
+  change (mm_kern Cx Cy Cz (omax orders) (set_coeffs sa ?C) sb ?o) with (mm_kern Cx Cy Cz (omax orders) sa sb o).
+  now apply kentry_add_a.
+Qed.
+
+Theorem mm_unnormalised_homogeneous_a sa sb k C d ma ia mb ib :
+  d < length orders -> ma < nseg (set_coeffs sa C) -> ia < ncomp sa -> mb < nseg sb -> ib < ncomp sb ->
+  mm_entry' (set_coeffs sa (rows_scale k C)) sb d ma ia mb ib = k * mm_entry' (set_coeffs sa C) sb d ma ia mb ib.
+Proof.
+  intros Hd Hma Hia Hmb Hib.
+  rewrite !mm_entry_kentry by (assumption || (rewrite ?nseg_rows_scale; assumption)).
+  change (mm_kern Cx Cy Cz (omax orders) (set_coeffs sa ?C) sb ?o) with (mm_kern Cx Cy Cz (omax orders) sa sb o).
+  apply kentry_scale_a.
+Qed.
+
+Theorem mm_unnormalised_additive_b sa sb C1 C2 d ma ia mb ib : same_shape C1 C2 ->
+  d < length orders -> ma < nseg sa -> ia < ncomp sa -> mb < nseg (set_coeffs sb C1) -> ib < ncomp sb ->
+  mm_entry' sa (set_coeffs sb (rows_add C1 C2)) d ma ia mb ib
+  = mm_entry' sa (set_coeffs sb C1) d ma ia mb ib + mm_entry' sa (set_coeffs sb C2) d ma ia mb ib.
+Proof.
+  intros HS Hd Hma Hia Hmb Hib. destruct (nseg_rows_add sb C1 C2 HS) as [N1 N2].
+  rewrite !mm_entry_kentry by (assumption || (rewrite ?N1, ?N2; assumption)).
+  change (mm_kern Cx Cy Cz (omax orders) sa (set_coeffs sb ?C) ?o) with (mm_kern Cx Cy Cz (omax orders) sa sb o).
+  now apply kentry_add_b.
+Qed.
+
+Theorem mm_unnormalised_homogeneous_b sa sb k C d ma ia mb ib :
+  d < length orders -> ma < nseg sa -> ia < ncomp sa -> mb < nseg (set_coeffs sb C) -> ib < ncomp sb ->
+  mm_entry' sa (set_coeffs sb (rows_scale k C)) d ma ia mb ib = k * mm_entry' sa (set_coeffs sb C) d ma ia mb ib.
+Proof.
+  intros Hd Hma Hia Hmb Hib.
+  rewrite !mm_entry_kentry by (assumption || (rewrite ?nseg_rows_scale; assumption)).
+  change (mm_kern Cx Cy Cz (omax orders) sa (set_coeffs sb ?C) ?o) with (mm_kern Cx Cy Cz (omax orders) sa sb o).
+  apply kentry_scale_b.
+Qed.
+
+(* 5a. a column of each shell scaled: the un-normalised entries pick up the factors *)
+Theorem mm_scale_col_unnormalised sa sb m0a ka m0b kb d ma ia mb ib :
+  d < length orders -> ma < nseg sa -> ia < ncomp sa -> mb < nseg sb -> ib < ncomp sb ->
+  mm_entry' (scale_col sa m0a ka) (scale_col sb m0b kb) d ma ia mb ib
+  = colfac m0a ka ma * colfac m0b kb mb * mm_entry' sa sb d ma ia mb ib.
+Proof.
+  intros Hd Hma Hia Hmb Hib.
+  rewrite !mm_entry_kentry by (assumption || (rewrite ?nseg_scale_col; assumption)).
+  change (mm_kern Cx Cy Cz (omax orders) (scale_col sa m0a ka) (scale_col sb m0b kb) ?o)
+    with (mm_kern Cx Cy Cz (omax orders) sa sb o).
+  apply kentry_scale_col.
+Qed.
+
+End MM.
+
 End P.
